@@ -210,7 +210,7 @@ def oracle(which, ht, hsrc, hdst, hdh, nbytes, p1, p2, p3, p4, p5, sid, id1, id2
                     if o.mod_id == w.pre_ids[0] or (S.name and o.name == S.name):
                         clash = True
                 if not clash:
-                    c = W.FakeConn(50)
+                    c = W.FakeConn(S.conn.i)     # the OS hands the descriptor that was just closed to the next accept()
                     fresh = M.Module(uid=99, conn=c, address=("10.0.0.9", 1), header_cls=mm.header_cls)
                     if W.SHADOW:
                         fresh.subs = W.LinearSet()
@@ -223,6 +223,8 @@ def oracle(which, ht, hsrc, hdst, hdh, nbytes, p1, p2, p3, p4, p5, sid, id1, id2
                         mm.process_message(fresh)
                     if not (fresh.connected and fresh.mod_id == w.pre_ids[0] and len(acks(fresh)) == 1):
                         return False, "id/name of the departed module could not be reused at once"
+                    if acks(fresh)[0]["dest_mod_id"] != fresh.mod_id or acks(fresh)[0]["src_mod_id"] != 0:
+                        return False, "the newcomer's acknowledgement is not addressed to it"
         return True, ""
 
     # --- acknowledgement bookkeeping (C19) and identity (C06)
